@@ -51,6 +51,16 @@ def analyse_stores(ctx, fv: FV) -> List[Store]:
         else:  # mutation through a method call (fill, put, ...)
             out.append(Store(nid, s, s, False, "in-place method call on the volume array"))
             continue
+        if not any(_rooted_at_volumes(t) for t in targets):
+            # a VOLWRITE that does not name self._volumes: the array is written through a local alias / view
+            # (state = self._volumes.ravel(); state[positions] = ...)
+            t0 = targets[0] if targets else s
+            root = t0
+            while isinstance(root, ast.Subscript):
+                root = root.value
+            st = Store(nid, s, t0, False, f"the volume array is written through the local alias `{ast.unparse(root)[:30]}` (a view, or - for a non-contiguous array - a silent copy) and not by a per-well store self._volumes[<index>]")
+            out.append(st)
+            continue
         for t in targets:
             if not _rooted_at_volumes(t):
                 continue
